@@ -254,7 +254,7 @@ def run(m, chk):
         same_interval(r, chk, ctx, guards, q)
     from .extra import int_matrix
 
-    int_matrix(r, chk, ["curves.BaseCurve.__add__", "heavy.Operations.matrix_transformation"], floor=3)
+    int_matrix(r, chk, ["curves.BaseCurve.__add__", "heavy.Operations.matrix_transformation"], floor=1)
     from .extra import axis_first
 
     axis_first(r, chk, ["curves.BaseCurve.__mul__"])
